@@ -1,5 +1,6 @@
 """N1..N8: names, paths, listing (C05, C06, C10, C16)."""
 import ast
+from ..core.loader import clone as _clone
 import re
 
 from ..core.loader import AnalysisError, dotted, norm, own_nodes, where, enclosing_class, full
@@ -1756,7 +1757,7 @@ def rule_X1(ctx):
         def visit_Call(self, n):
             self.generic_visit(n)
             if isinstance(n.func, ast.Name) and n.func.id == "isinstance" and len(n.args) == 2 and isinstance(n.args[1], ast.Tuple) and n.args[1].elts:
-                return ast.BoolOp(op=ast.Or(), values=[ast.Call(func=n.func, args=[_copy.deepcopy(n.args[0]), e], keywords=[]) for e in n.args[1].elts])
+                return ast.BoolOp(op=ast.Or(), values=[ast.Call(func=n.func, args=[_clone(n.args[0]), e], keywords=[]) for e in n.args[1].elts])
             return n
 
     def table_of(fn, atoms_):
@@ -1765,7 +1766,7 @@ def rule_X1(ctx):
         orig = _sem.path_tests
 
         def pt(p):
-            return [(_SplitIsinstance().visit(_copy.deepcopy(t)), tk) for t, tk in orig(p)]
+            return [(_SplitIsinstance().visit(_clone(t)), tk) for t, tk in orig(p)]
 
         _sem.path_tests = pt
         try:
